@@ -211,7 +211,11 @@ func (s *store) Put(key string, value []byte, tags ...spi.Tag) error {
 
 // TODO (#2485): Check data in current batch before resorting to a flush.
 func (s *store) Get(key string) ([]byte, error) {
-	err := s.Flush()
+	// The lock is held over the flush and the read: the read sees a batch whole or not at all.
+	s.Lock()
+	defer s.Unlock()
+
+	err := s.flush()
 	if err != nil {
 		return nil, fmt.Errorf(failFlush, err)
 	}
@@ -225,7 +229,11 @@ func (s *store) Get(key string) ([]byte, error) {
 }
 
 func (s *store) GetTags(key string) ([]spi.Tag, error) {
-	err := s.Flush()
+	// The lock is held over the flush and the read: the read sees a batch whole or not at all.
+	s.Lock()
+	defer s.Unlock()
+
+	err := s.flush()
 	if err != nil {
 		return nil, fmt.Errorf(failFlush, err)
 	}
@@ -239,7 +247,11 @@ func (s *store) GetTags(key string) ([]spi.Tag, error) {
 }
 
 func (s *store) GetBulk(keys ...string) ([][]byte, error) {
-	err := s.Flush()
+	// The lock is held over the flush and the read: the read sees a batch whole or not at all.
+	s.Lock()
+	defer s.Unlock()
+
+	err := s.flush()
 	if err != nil {
 		return nil, fmt.Errorf(failFlush, err)
 	}
@@ -253,7 +265,11 @@ func (s *store) GetBulk(keys ...string) ([][]byte, error) {
 }
 
 func (s *store) Query(expression string, options ...spi.QueryOption) (spi.Iterator, error) {
-	err := s.Flush()
+	// The lock is held over the flush and the read: the read sees a batch whole or not at all.
+	s.Lock()
+	defer s.Unlock()
+
+	err := s.flush()
 	if err != nil {
 		return nil, fmt.Errorf(failFlush, err)
 	}
